@@ -165,11 +165,14 @@ class Interp:
         for p in pos + a.kwonlyargs:
             if p.arg not in env:
                 raise PyRaise(ExcInstance("TypeError", ["%s() missing required argument %r" % (fn.name, p.arg)], ("Exception",)))
+        gen = _is_generator(fn)
+        if gen:
+            frame["yields"] = []
         try:
             self.block(fn.body, frame)
         except _Return as r:
-            return r.v
-        return None
+            return frame["yields"] if gen else r.v
+        return frame["yields"] if gen else None
 
     # ------------------------------------------------------------------------------------------ statements
     def block(self, stmts, frame):
@@ -532,6 +535,8 @@ class Interp:
         v = self.ev(e.operand, frame)
         if isinstance(e.op, ast.Not):
             return not self.truth(v, e)
+        if isinstance(e.op, ast.Invert) and hasattr(v, "m_invert"):
+            return v.m_invert(self)
         if _symbolic(v):
             raise Undecided("unary operator on a model object")
         if isinstance(e.op, ast.USub):
@@ -555,7 +560,10 @@ class Interp:
         left = self.ev(e.left, frame)
         for op, c in zip(e.ops, e.comparators):
             right = self.ev(c, frame)
-            if not self.compare(op, left, right, e):
+            res = self.compare(op, left, right, e)
+            if len(e.ops) == 1:
+                return res  # may be a vector (element-wise comparison of a model object)
+            if not self.truth(res, e):
                 return False
             left = right
         return True
@@ -681,6 +689,19 @@ class Interp:
             return tuple(self.ev_index(x, frame) for x in s.elts)
         return self.ev(s, frame)
 
+    def ev_Yield(self, e, frame):
+        """Generators are run to completion; the yielded values are collected in order (no value is sent in)."""
+        if "yields" not in frame:
+            raise Undecided("yield outside a function")
+        frame["yields"].append(self.ev(e.value, frame) if e.value is not None else None)
+        return None
+
+    def ev_YieldFrom(self, e, frame):
+        if "yields" not in frame:
+            raise Undecided("yield outside a function")
+        frame["yields"].extend(self.iterate(self.ev(e.value, frame), e))
+        return None
+
     def ev_Starred(self, e, frame):
         raise Undecided("starred expression")
 
@@ -718,6 +739,18 @@ def _as_load(t):
 
 
 _local_cache = {}
+
+
+def _is_generator(fn):
+    stack = list(fn.body)
+    while stack:
+        n = stack.pop()
+        if isinstance(n, (ast.FunctionDef, ast.AsyncFunctionDef, ast.ClassDef, ast.Lambda)):
+            continue
+        if isinstance(n, (ast.Yield, ast.YieldFrom)):
+            return True
+        stack.extend(ast.iter_child_nodes(n))
+    return False
 
 
 def _is_local(fn, name):
